@@ -54,6 +54,8 @@ func genContent(r *h.Rand, kind int) string {
 		return b.String()
 	case 6:
 		return "tabs\tand  spaces   \n trailing spaces   \n"
+	case 8:
+		return "looks like a template: {{ .NoSuchVariable }} {{ and an unbalanced one\n{\"json\": {\"a\": {{1}}}}\n"
 	default:
 		var b strings.Builder
 		for i := 0; i < r.Range(1, 20); i++ {
@@ -98,7 +100,7 @@ func runOutputCase(a args, idx int, r *h.Rand) {
 	var files []string
 	for i := 0; i < ncmd; i++ {
 		f := fmt.Sprintf("%s/content.%d", dir, i)
-		content := genContent(r, r.Intn(9))
+		content := genContent(r, r.Intn(10))
 		if per := budget / (ncmd * maxInt(nvar, 1)); len(content) > per {
 			content = content[:per]
 		}
